@@ -251,17 +251,20 @@ def run_model(cases_text, jobs=None):
     if lines and lines[-1] == "":
         lines.pop()
     jobs = jobs or int(os.environ.get("VERIF_MODEL_JOBS", "12"))
-    total = sum(len(l) + 1 for l in lines)
+    # sweep blocks (E1/E5/E6 <block>) are stateless and heavy: weighted, and a cut may precede them
+    # (the generators put them where no mapping-dependent operation follows without a new M line)
+    weight = lambda l: 40_000 if re.match(r'E\d ', l) else len(l) + 1
+    total = sum(weight(l) for l in lines)
     if jobs <= 1 or total < 200_000:
         return _run_model_one(cases_text)
     target = total // (jobs * 4) + 1
     chunks, cur, size = [], [], 0
     for l in lines:
-        if (l.startswith("M ") or l.startswith("X ")) and size >= target:
+        if (l.startswith("M ") or l.startswith("X ") or re.match(r'E\d ', l)) and size >= target:
             chunks.append(cur)
             cur, size = [], 0
         cur.append(l)
-        size += len(l) + 1
+        size += weight(l)
     if cur:
         chunks.append(cur)
     from concurrent.futures import ThreadPoolExecutor
@@ -414,6 +417,35 @@ def step_correspondence(prop, tier, seed, harness, replay=None):
             probs = registry.check_case(prop, c, impl[i], ml, {"mode": mode, "mapping_line": cur_mapping, "stats": stats})
             if probs:
                 failures.append((i, "; ".join(probs), impl[i], ml))
+    # a differing E1 digest is expanded into its explicit cases to find the concrete input
+    for (i, why, il, ml) in list(failures):
+        if cases[i].startswith("E1 ") and il.startswith("dg="):
+            rc, out = sh([harness, "expand", "E1", cases[i].split(" ")[1]], timeout=600)
+            sub = [l for l in out.split("\n") if l]
+            stext = "\n".join(sub) + "\n"
+            rc2, simpl, _ = run_impl(harness, stext)
+            smodel = run_model(stext)
+            cm = None
+            for j, c in enumerate(sub):
+                if c.startswith("M "):
+                    cm = c
+                    continue
+                if j >= len(simpl) or j >= len(smodel):
+                    break
+                pr = registry.check_case(prop, c, simpl[j], smodel[j], {"mode": "run", "mapping_line": cm, "stats": {"evaluations": 0, "nontrivial": set(), "ops": {}, "kinds": {}}})
+                if pr:
+                    base = len(cases)
+                    cases += [cm, c]
+                    first = info.get("modes", ["run"])[0]
+                    results[first][1][base:base] = []  # keep list object
+                    while len(results[first][1]) < base:
+                        results[first][1].append("")
+                    results[first][1][base:] = ["M", simpl[j]]
+                    while len(model) < base:
+                        model.append("")
+                    model[base:] = ["M", smodel[j]]
+                    failures.append((base + 1, "E1 block %s: %s" % (cases[i].split(" ")[1], "; ".join(pr)), simpl[j], smodel[j]))
+                    break
     if info.get("validate_bytes"):
         # C09: the independent layout decoder (extracted from Layout.v) on the IMPLEMENTATION's bytes
         rc0, impl0, _ = results[info.get("modes", ["run"])[0]]
